@@ -335,6 +335,12 @@ def pool_stress_race(ctx):
     ctx.harness_race(["pool-stress", "-g", "16", "-secs", str(tier(ctx, 3, 60)), "-trace", trace2, "-maxev", str(tier(ctx, 30000, 120000))])
 
 
+def pool_model(ctx):
+    ctx.tlc_only("MCPool", "Pool.cfg", workers=16, consts=dict(Printers="MCPrinters2", Arrays="MCArrays2", SYMMETRY="Sym2", MaxNest=2,
+                                                              Features='{"nested", "override", "wrap", "big"}'))
+    ctx.tlc_only("MCPool", "Pool.cfg", workers=16)
+
+
 def pool_history_pairs(ctx):
     """every (prior call, probe) pair of call kinds, probes compared with a fresh process"""
     ctx.harness(["pool-history", "-depth", str(tier(ctx, 1, 2))])
@@ -631,3 +637,29 @@ PROPS = {
     "C13": dict(run=c13, rule=BUFFER_RULE, exhaustive=True, assumptions=[
         "Cap() and the aliasing RedactableBytes slice are outside the claim (property text speaks of strings)"]),
 }
+
+# what was added after the rule texts above were written (rounds 6-9 of seeded changes, the random slice, F9-F11)
+RND = ("Slice rnd: pseudo-random cases, a pure function of (seed, index): 1-3 operand terms up to four levels deep over every "
+       "constructor of the term language, formats assembled from literals and directives (quick 1600 / 800 cases, thorough 24000 / 8000), "
+       "run through the specification by TLC and replayed like every other slice. ")
+ADDENDA = {
+    "C01": RND + "Panic slice (panics that cross a nested printer, F10) and the builder histories (accessors, Reset, Take at every point) judged by this property's clauses; API slices scribbled before every stage.",
+    "C02": RND + "A second pair of instantiations whose secrets start with marker fragments; registry families of built-in / byte-container / byte-kinded element types with leak probes (an unsafe sentinel after the value, next operand, next call); every writing interface of package io a builder satisfies.",
+    "C03": RND + "Builder histories judged by this property's clauses; ill-formed lines are named here too.",
+    "C04": "Width and precision sweep 0..300 and powers of two / ten; narrow kinds inside containers; interface-kinded reflect.Values; maps with nil interface keys.",
+    "C05": RND + "Registry families as in C02 plus statically typed slices / arrays of each type; panic payloads classified under the declaration of the object that raised them.",
+    "C06": RND + "The envelope clauses at every depth of an operand (qcls and rnd); precision-only and flagged directives around the plain values; whole rnd operand lists compared with fmt's characters for the operands without wrappers.",
+    "C07": "The bytes next to the markers' third byte (U+2038, U+203B) in every alphabet.",
+    "C08": RND + "Absolute clause: no quotation mark next to a redactable; operands are read-only; the redactable types themselves registered as safe (leak probes behind unexported fields).",
+    "C09": "Every SafeWriter method and a marker split over two safe calls in the quick set; io interface probes.",
+    "C10": "Buffer histories judged by this property's own clauses (well-formed, stripped text = escaped payload history).",
+    "C11": RND + "StringWithoutMarkers of every SafeFormatter operand; panics crossing nested printers (F10).",
+    "C12": RND + "(as histories re-run in another order); call kinds with caller-made pre-redacted operands, zero precision after widths, explicit indexes then surplus operands; MCRegistry behaviours (registrations between prints); fresh struct types under the race detector.",
+    "C13": "Echo operations, epoch twins, boundary splits, a caller-made pre-redacted operand (F11) in builder-drive; accessor / Take agreement on ManualBuffer in every mode; BufferMem models the lending protocol of nested printers (F10) with the pre-repair variant as a control.",
+    "C14": "Width / precision sweep 0..300; the width and precision a method observes compared with fmt's; values that print differently at 32 and 64 bits.",
+    "C15": RND + "Formatter errors that show the verb and the flags they are called with; errors with an empty message; pre-redacted operands (F9).",
+    "C16": RND + "(through MCRoutes); a priming HelperForErrorf call before every route; writers that fail after a partial write; redactables with empty envelopes.",
+    "C17": RND + "(hook installed: no invocation for an error under Unsafe at any depth); hook kind silent (prints nothing: still the sole renderer).",
+}
+for _k, _v in ADDENDA.items():
+    PROPS[_k]["rule"] = PROPS[_k]["rule"].rstrip() + " Later additions: " + _v
